@@ -51,6 +51,9 @@ def judgeC12 : P Verdict := do
   if nsteps ≥ 12 then tag "nt"
   let mut d := d0
   let mut cur : Option (ITree Nat) := none
+  -- nodes of trees that a later `add_root` replaced: stored for ever, untouched, unreachable (the documented exception;
+  -- model: `Arena.addRoot`, theorem `C12_add_root_exception`)
+  let mut garbage : List (ANode Nat) := []
   for step in [0:nsteps] do
     expect ";"
     let op ← tok
@@ -60,6 +63,15 @@ def judgeC12 : P Verdict := do
       let v ← pNat; expect "|"; let r ← pOpRes; let d' ← pDump pNat
       match r with
       | .ok idx =>
+        -- everything stored so far stays as it is and becomes unreachable
+        if cur.isSome then
+          tag "re-root"
+          garbage := garbage ++ d.nodes
+        if garbage.any (fun g => g.idx == idx) then
+          return .propfail s!"step {step}: add_root returned index {idx} which is in use"
+        if !garbage.all (fun g => d'.nodes.any (fun x => anodeEq g x)) then
+          return .propfail s!"step {step}: add_root changed a stored node (the replaced tree must stay untouched)"
+        let d' : Dump Nat := { d' with nodes := d'.nodes.filter (fun nd => !garbage.any (fun g => g.idx == nd.idx)) }
         let t : ITree Nat := .node idx v (IKids.empty d'.K)
         if !arenaMatches t d' then return .propfail s!"step {step}: add_root did not produce a single-node tree"
         cur := some t; d := d'
@@ -71,6 +83,9 @@ def judgeC12 : P Verdict := do
       expect "|"
       let r ← pOpRes
       let d' ← pDump pNat
+      if !garbage.all (fun g => d'.nodes.any (fun x => anodeEq g x)) then
+        return .propfail s!"step {step} ({op} {a} {b}): a node of a replaced tree changed (after add_root the old tree stays in the arena, untouched)"
+      let d' : Dump Nat := { d' with nodes := d'.nodes.filter (fun nd => !garbage.any (fun g => g.idx == nd.idx)) }
       let some t := cur | return .diverge s!"step {step}: operation before add_root"
       -- direct decision of the property on the implementation's state
       let t'? := absDump d'
@@ -96,7 +111,7 @@ def judgeC12 : P Verdict := do
         | "add" =>
           match r with
           | .ok fresh =>
-            if t.contains fresh then .error .panic   -- flagged below
+            if t.contains fresh || garbage.any (fun g => g.idx == fresh) then .error .panic   -- flagged below
             else (t.addChildNode a b c fresh).map (fun t' => (t', fresh))
           | _ => (t.addChildNode a b c 0).map (fun t' => (t', 0))
         | "rm" => t.tryRemoveChild a b
@@ -108,7 +123,7 @@ def judgeC12 : P Verdict := do
       let model := if op == "upd" then (t.updateNode a b) else model
       match model, r with
       | .ok (t', pay), .ok pay' =>
-        if op == "add" && t.contains pay' then
+        if op == "add" && (t.contains pay' || garbage.any (fun g => g.idx == pay')) then
           return .propfail s!"step {step}: add_child_node returned index {pay'} which is already in use"
         if pay != pay' then return .diverge s!"step {step} ({op} {a} {b}): payload model={pay} impl={pay'}"
         if !arenaMatches t' d' then return .diverge s!"step {step} ({op} {a} {b}): resulting tree differs from the model"
